@@ -46,7 +46,13 @@ def check(chk):
         raise AnalysisError('run: one HeartbeatFuture creation expected, found %d' % len(hb))
     call = [x for x in ast.walk(hb[0].ast) if isinstance(x, ast.Call) and src(x.func) == 'HeartbeatFuture'][0]
     ok = all(fa.knows('connection.is_idle') is True and _live(fa) for fa, _ in fl.at(hb[0]))
-    chk.judge(ok and [src(a) for a in call.args] == ['connection', 'owner'] and src(hb[0].ast).startswith('futures.append('), 'C44.arms', hb[0].ast,
+    # the future is put on the list that the wait loop goes over: directly, or through a local appended on the normal path after the creation
+    kept = src(hb[0].ast).startswith('futures.append(')
+    if not kept and isinstance(hb[0].ast, ast.Assign) and isinstance(hb[0].ast.targets[0], ast.Name):
+        v_ = hb[0].ast.targets[0].id
+        aps_ = [n for n in g.stmt_nodes() if n.kind == 'stmt' and src(n.ast) == 'futures.append(%s)' % v_]
+        kept = len(aps_) == 1 and g.dominates(hb[0], aps_[0])
+    chk.judge(ok and [src(a) for a in call.args] == ['connection', 'owner'] and kept, 'C44.arms', hb[0].ast,
               'heartbeat sent only on an idle, live connection; the future remembers (connection, owner)', 'a heartbeat is sent on a busy, defunct or closed connection')
     send_loop = enclosing(hb[0].ast, ast.For)
     outer = enclosing(send_loop, ast.For)
